@@ -555,7 +555,13 @@ class ExprMixin:
             outs.append((s, VBool(z3.And(*conds) if len(conds) > 1 else conds[0])))
         return outs
 
+    def as_type(self, v):
+        if isinstance(v, VFunc) and v.kind == "builtin" and v.target in ("str", "int", "float", "bool", "list", "dict", "tuple", "set"):
+            return self.vtype("builtins." + v.target)
+        return v
+
     def compare(self, op, a, b, st, cx):
+        a, b = self.as_type(a), self.as_type(b)
         if isinstance(op, ast.Eq):
             return val_eq(a, b)
         if isinstance(op, ast.NotEq):
@@ -689,6 +695,13 @@ class ExprMixin:
             return [(ok, dict_get(b, i))] if ok is not None else []
         if isinstance(b, VMap):
             return [(st, mk_val(z3.Select(b.t, term_of(i, b.sort.k)), b.sort.v))]
+        if isinstance(b, VConcDict) and cx.spec:
+            if not b.items:
+                raise Unsupported("index into empty dict in spec")
+            r = b.items[-1][1]
+            for k, v in reversed(b.items[:-1]):
+                r = self.ite(val_eq(k, i), v, r)
+            return [(st, r)]
         if isinstance(b, VConcDict):
             # concrete keys: resolve by equality
             outs = []
@@ -731,6 +744,16 @@ class ExprMixin:
             if f is not None:
                 outs.extend(self.to_str(mk_val(v.sort.the(v.t), v.sort.inner), f, cx))
             return outs
+        if isinstance(v, VRec) and v.sort.nm == "PyVal":
+            from .sym_call import K_STR, K_INT, K_BOOL, K_FLOAT, K_NONE, F_float_str
+            k = v.sort.get(v.t, "kind")
+            other = z3.FreshConst(z3.StringSort(), "pyvalstr")
+            t = z3.If(k == K_STR, v.sort.get(v.t, "s"),
+                      z3.If(k == K_INT, int_to_str(v.sort.get(v.t, "i")),
+                            z3.If(k == K_BOOL, z3.If(v.sort.get(v.t, "b"), z3.StringVal("True"), z3.StringVal("False")),
+                                  z3.If(k == K_FLOAT, F_float_str(v.sort.get(v.t, "f")),
+                                        z3.If(k == K_NONE, z3.StringVal("None"), other)))))
+            return [(st, VStr(t))]
         if isinstance(v, (VRef, VRec)):
             outs = []
             for s2, f in self.getattr_(v, "__str__", st, cx):
@@ -878,11 +901,13 @@ class ExprMixin:
         if len(res) != 1:
             raise Unsupported("forking iterable in comprehension")
         s, xs = res[0]
-        if not isinstance(xs, VList):
+        try:
+            n, elem = self.iter_view(xs, s)
+        except Unsupported:
             raise Unsupported("comprehension over %r" % (xs,))
         i = z3.FreshConst(z3.IntSort(), "ci")
         eo = {}
-        self.bind_target(g.target, list_get(xs, i), eo)
+        self.bind_target(g.target, elem(i), eo)
         saved = dict(s.env)
         s.env.update(eo)
         acc = []
@@ -896,7 +921,6 @@ class ExprMixin:
         else:
             ls = TList(v.sort)
         out = fresh(ls, "cmp")
-        n = xs.sort.len(xs.t)
         s.pc.append(ls.len(out.t) == n)
         s.pc.append(z3.ForAll([i], z3.Implies(z3.And(i >= 0, i < n), z3.Select(ls.arr(out.t), i) == term_of(v, ls.elem))))
         s.pc.append(canonical_list(out.t, ls))
@@ -927,4 +951,4 @@ SPEC_BUILTINS = {"implies", "iff", "old", "forall", "exists", "isinst", "cls_is"
                  "field", "len", "str", "all", "any", "range", "int", "bool", "isinstance", "type", "zip", "enumerate",
                  "list", "tuple", "concat", "prefix_of", "seq_eq", "allocated", "unchanged", "strlen", "substr",
                  "startswith", "endswith", "contains", "old_field", "replace", "min", "max", "abs", "index_of", "in_re_ws",
-                 "set_subset", "lemma", "dict_keys", "store", "const_map", "any_value", "frame", "same_class", "is_new", "is_space", "str_repeat", "pigeonhole", "card", "result_is_new", "str_from_int", "at"}
+                 "set_subset", "lemma", "dict_keys", "store", "const_map", "any_value", "monotone", "stable_except", "live", "float_text", "frame", "same_class", "is_new", "is_space", "str_repeat", "pigeonhole", "card", "result_is_new", "str_from_int", "at"}
